@@ -9,146 +9,153 @@ open Scc
 
 /-! ## the fragment -/
 
+/-- the annotated type is present and is not a codata type -/
+def ncdO (p : Fun.CheckedProgram) : Option Fun.Ty → Bool
+  | some τ => !Fun.isCodataTy p τ
+  | none => false
+
+/-- the annotated type is present and is a codata type -/
+def cdO (p : Fun.CheckedProgram) : Option Fun.Ty → Bool
+  | some τ => Fun.isCodataTy p τ
+  | none => false
+
 mutual
-  /-- the terms covered by the simulation proof: no `new`, no destructor call; operands of
-  operators and arguments of calls / constructors are first-order pure; no call of `main`;
-  clause binders are pairwise distinct and are the names of the typed clause context -/
-  def good : Fun.Term → Bool
+  /-- the terms covered by the simulation proof (in evaluation position): every evaluated term has
+  an integer or data type; operands of operators and arguments of calls / constructors /
+  destructors are pure (`goodP`); a codata-typed `let` binds a variable or a `new`; the scrutinee
+  of a destructor call is a variable or a `new` of codata type; no call of `main`; clause binders
+  are pairwise distinct and are the names of the typed clause context -/
+  def good (p : Fun.CheckedProgram) : Fun.Term → Bool
+    | .var _ ty _ => ncdO p ty
+    | .lit _ => true
+    | .op a _ b => goodP p a && goodP p b
+    | .ifc _ a b t e ty => good p a && good p b && good p t && good p e && ncdO p ty
+    | .ifz _ a t e ty => good p a && good p t && good p e && ncdO p ty
+    | .print _ a n ty => good p a && good p n && ncdO p ty
+    | .letIn _ vt b i ty =>
+      ncdO p ty && good p i && (if Fun.isCodataTy p vt then goodP p b && pureS b else good p b)
+    | .call f as ty => f != "main" && goodPs p as && ncdO p ty
+    | .ctor _ as ty => goodPs p as && ncdO p ty
+    | .dtor s _ _ as ty => pureS s && goodP p s && cdO p s.getType && goodPs p as && ncdO p ty
+    | .case s _ cs ty => good p s && ncdO p s.getType && goodClauses p cs && ncdO p ty
+    | .label _ t ty => good p t && ncdO p ty
+    | .goto _ t ty => good p t && ncdO p t.getType && ncdO p ty
+    | .exit t ty => good p t && ncdO p ty
+    | .paren t => good p t
+    | .new .. => false
+  /-- pure terms (operands, arguments, by-name bindings) -/
+  def goodP (p : Fun.CheckedProgram) : Fun.Term → Bool
     | .var .. => true
     | .lit _ => true
-    | .op a _ b => pureFO a && pureFO b
-    | .ifc _ a b t e _ => good a && good b && good t && good e
-    | .ifz _ a t e _ => good a && good t && good e
-    | .print _ a n _ => good a && good n
-    | .letIn _ _ b i _ => good b && good i
-    | .call f as _ => f != "main" && pureFOs as
-    | .ctor _ as _ => pureFOs as
-    | .case s _ cs _ => good s && goodClauses cs
-    | .label _ t _ => good t
-    | .goto _ t _ => good t
-    | .exit t _ => good t
-    | .paren t => good t
-    | .new .. => false
-    | .dtor .. => false
-  def goodClauses : Fun.Clauses → Bool
+    | .op a o b => o != .div && o != .rem && goodP p a && goodP p b
+    | .ctor _ as _ => goodPs p as
+    | .new cs _ => goodClauses p cs
+    | .paren t => goodP p t
+    | _ => false
+  def goodPs (p : Fun.CheckedProgram) : Fun.Terms → Bool
+    | .nil => true
+    | .cons t r =>
+      goodP p t &&
+      (match t.getType with
+        | some ty => !Fun.isCodataTy p ty || pureS t
+        | none => true) && goodPs p r
+  /-- clauses of a `case` or of a `new` -/
+  def goodClauses (p : Fun.CheckedProgram) : Fun.Clauses → Bool
     | .nil => true
     | .cons _ _ names ctx b r =>
-      good b && decide names.Nodup && decide (ctx.map (·.var) = names) && goodClauses r
+      good p b && ncdO p b.getType && decide names.Nodup && decide (ctx.map (·.var) = names) &&
+      goodClauses p r
 end
 
-abbrev GP : Fun.Term → Prop := fun t => good t = true
+abbrev GP (p : Fun.CheckedProgram) : Fun.Term → Prop := fun t => good p t = true
 
-/-! ## generated names -/
+/-- every term of the fragment in evaluation position has an integer or data type -/
+theorem good_ncd (p : Fun.CheckedProgram) : ∀ t : Fun.Term, good p t = true →
+    ncdO p t.getType = true
+  | .var _ ty _, h => by simpa [good, Fun.Term.getType] using h
+  | .lit _, _ => by simp [Fun.Term.getType, ncdO, Fun.isCodataTy]
+  | .op .., _ => by simp [Fun.Term.getType, ncdO, Fun.isCodataTy]
+  | .ifc _ _ _ _ _ ty, h => by
+    simp only [good, Bool.and_eq_true] at h; simpa [Fun.Term.getType] using h.2
+  | .ifz _ _ _ _ ty, h => by
+    simp only [good, Bool.and_eq_true] at h; simpa [Fun.Term.getType] using h.2
+  | .print _ _ _ ty, h => by
+    simp only [good, Bool.and_eq_true] at h; simpa [Fun.Term.getType] using h.2
+  | .letIn _ _ _ _ ty, h => by
+    simp only [good, Bool.and_eq_true] at h; simpa [Fun.Term.getType] using h.1.1
+  | .call _ _ ty, h => by
+    simp only [good, Bool.and_eq_true] at h; simpa [Fun.Term.getType] using h.2
+  | .ctor _ _ ty, h => by
+    simp only [good, Bool.and_eq_true] at h; simpa [Fun.Term.getType] using h.2
+  | .dtor _ _ _ _ ty, h => by
+    simp only [good, Bool.and_eq_true] at h; simpa [Fun.Term.getType] using h.2
+  | .case _ _ _ ty, h => by
+    simp only [good, Bool.and_eq_true] at h; simpa [Fun.Term.getType] using h.2
+  | .label _ _ ty, h => by
+    simp only [good, Bool.and_eq_true] at h; simpa [Fun.Term.getType] using h.2
+  | .goto _ _ ty, h => by
+    simp only [good, Bool.and_eq_true] at h; simpa [Fun.Term.getType] using h.2
+  | .exit _ ty, h => by
+    simp only [good, Bool.and_eq_true] at h; simpa [Fun.Term.getType] using h.2
+  | .paren t, h => by
+    simp only [good] at h
+    simpa [Fun.Term.getType] using good_ncd p t h
+  | .new .., h => by simp [good] at h
 
-theorem freshNameLoop_form (used : List String) (base : String) :
-    ∀ (fuel n : Nat), ∃ k : Nat, freshNameLoop used base fuel n = base ++ toString k
-  | 0, n => ⟨n, rfl⟩
-  | fuel + 1, n => by
-    unfold freshNameLoop
-    simp only
-    split
-    · exact freshNameLoop_form used base fuel (n + 1)
-    · exact ⟨n, rfl⟩
+mutual
+  theorem goodP_pureFO (p : Fun.CheckedProgram) : ∀ t : Fun.Term, goodP p t = true →
+      pureFO p (goodClauses p) t = true
+    | .var .., _ => rfl
+    | .lit _, _ => rfl
+    | .op a o b, h => by
+      simp only [goodP, Bool.and_eq_true] at h
+      simp only [pureFO, Bool.and_eq_true]
+      exact ⟨⟨h.1.1, goodP_pureFO p a h.1.2⟩, goodP_pureFO p b h.2⟩
+    | .ctor _ as _, h => by
+      simp only [goodP] at h
+      simp only [pureFO]
+      exact goodPs_pureFOs p as h
+    | .new cs _, h => by simpa [goodP, pureFO] using h
+    | .paren t, h => by
+      simp only [goodP] at h
+      simp only [pureFO]
+      exact goodP_pureFO p t h
+    | .ifc .., h => by simp [goodP] at h
+    | .ifz .., h => by simp [goodP] at h
+    | .print .., h => by simp [goodP] at h
+    | .letIn .., h => by simp [goodP] at h
+    | .call .., h => by simp [goodP] at h
+    | .dtor .., h => by simp [goodP] at h
+    | .case .., h => by simp [goodP] at h
+    | .label .., h => by simp [goodP] at h
+    | .goto .., h => by simp [goodP] at h
+    | .exit .., h => by simp [goodP] at h
+  theorem goodPs_pureFOs (p : Fun.CheckedProgram) : ∀ as : Fun.Terms, goodPs p as = true →
+      pureFOs p (goodClauses p) as = true
+    | .nil, _ => rfl
+    | .cons t r, h => by
+      simp only [goodPs, Bool.and_eq_true] at h
+      simp only [pureFOs, Bool.and_eq_true]
+      exact ⟨⟨goodP_pureFO p t h.1.1, h.1.2⟩, goodPs_pureFOs p r h.2⟩
+end
 
-theorem freshCovar_ne_sig (st : CompileState) : (freshCovar st).1 ≠ sig := by
-  obtain ⟨k, hk⟩ := freshNameLoop_form st.usedVars "a" (st.usedVars.length + 1) 0
-  simp only [freshCovar, freshName, hk]
-  intro h
-  have h1 := congrArg String.toList h
-  simp [sig] at h1
-
-theorem freshVar_ne_sig (st : CompileState) : (freshVar st).1 ≠ sig := by
-  obtain ⟨k, hk⟩ := freshNameLoop_form st.usedVars "x" (st.usedVars.length + 1) 0
-  simp only [freshVar, freshName, hk]
-  intro h
-  have h1 := congrArg String.toList h
-  simp [sig] at h1
-
-theorem freshCovar_not_mem (st : CompileState) : (freshCovar st).1 ∉ st.usedVars :=
-  freshName_not_mem _ _
-
-theorem freshVar_not_mem (st : CompileState) : (freshVar st).1 ∉ st.usedVars :=
-  freshName_not_mem _ _
-
-theorem freshCovar_used (st : CompileState) :
-    (freshCovar st).2.usedVars = (freshCovar st).1 :: st.usedVars := rfl
-
-theorem freshVar_used (st : CompileState) :
-    (freshVar st).2.usedVars = (freshVar st).1 :: st.usedVars := rfl
-
-/-- the used-names set only grows along a translation -/
-theorem used_sub_of_fresh {st st' : CompileState} (h : Fresh st st') :
-    ∀ x ∈ st.usedVars, x ∈ st'.usedVars := by
-  obtain ⟨g, e, _, _⟩ := h.vars
-  intro x hx
-  rw [e]
-  exact List.mem_append.2 (.inr hx)
-
-/-! ## names of a translation -/
-
-theorem TermNames.mono {t : Fun.Term} {st st' : CompileState} (h : TermNames t st)
-    (hs : ∀ x ∈ st.usedVars, x ∈ st'.usedVars) (hn : sig ∉ st'.usedVars) : TermNames t st' :=
-  ⟨fun x hx => hs x (h.fv x hx), fun x hx => hs x (h.bd x hx), hn⟩
-
-theorem TermNames.fv_ne_sig {t : Fun.Term} {st : CompileState} (h : TermNames t st) :
-    ∀ y ∈ Sem.fv t, y ≠ sig := fun y hy e => h.nosig (e ▸ h.fv y hy)
-
-/-- `ς ∉ usedVars` is preserved by the translation -/
-def NoSigRel (st st' : CompileState) : Prop := sig ∉ st.usedVars → sig ∉ st'.usedVars
-
-theorem noSig_stepRel : StepRel NoSigRel where
-  refl := fun _ h => h
-  trans := fun h1 h2 h => h2 (h1 h)
-  freshVar := fun st h => by
-    rw [freshVar_used]
-    simp only [List.mem_cons, not_or]
-    exact ⟨fun e => freshVar_ne_sig st e.symm, h⟩
-  freshCovar := fun st h => by
-    rw [freshCovar_used]
-    simp only [List.mem_cons, not_or]
-    exact ⟨fun e => freshCovar_ne_sig st e.symm, h⟩
-  share := fun c st h => by
-    unfold share
-    split
-    · exact h
-    · show sig ∉ (freshVar st).2.usedVars
-      rw [freshVar_used]
-      simp only [List.mem_cons, not_or]
-      exact ⟨fun e => freshVar_ne_sig st e.symm, h⟩
-
-theorem cwc_noSig {t : Fun.Term} {c st s st'} (h : compileWithCont t c st = .ok (s, st'))
-    (hn : sig ∉ st.usedVars) : sig ∉ st'.usedVars :=
-  (rel_term noSig_stepRel t).1 c st s st' h hn
-
-theorem compile_noSig {t : Fun.Term} {ty st P st'} (h : compile t ty st = .ok (P, st'))
-    (hn : sig ∉ st.usedVars) : sig ∉ st'.usedVars :=
-  (rel_term noSig_stepRel t).2 ty st P st' h hn
-
-/-! ## lifted definitions -/
-
-theorem StOK.of_fresh {q : Core.Prog} {st st' : CompileState} (h : StOK q st') (hf : Fresh st st') :
-    StOK q st := by
-  obtain ⟨gl, new, _, _, _, e, _⟩ := hf.labels
-  refine ⟨fun d hd => h.1 d ?_, by rw [← hf.codata]; exact h.2⟩
-  rw [e]
-  exact List.mem_append.2 (.inr hd)
+/-- the clauses accepted by `goodClauses` have good bodies, distinct binders, and agree with their
+typed contexts -/
+theorem goodClauses_find (p : Fun.CheckedProgram) : ∀ (cs : Fun.Clauses), goodClauses p cs = true →
+    ∀ K cl, Fun.findClause K cs = some cl →
+      GP p cl.body ∧ cl.names.Nodup ∧ cl.ctx.map (·.var) = cl.names
+  | .nil, _, _, _, hf => by simp [Fun.findClause] at hf
+  | .cons pol xtor names ctx body rest, hg, K, cl, hf => by
+    simp only [goodClauses, Bool.and_eq_true, decide_eq_true_eq] at hg
+    simp only [Fun.findClause] at hf
+    by_cases hk : (K == xtor) = true
+    · simp only [hk, if_true, Option.some.injEq] at hf
+      subst hf
+      exact ⟨hg.1.1.1.1, hg.1.1.2, hg.1.2⟩
+    · simp only [hk] at hf
+      exact goodClauses_find p rest hg.2 K cl hf
 
 /-! ## bound variables -/
-
-theorem BoundOn.sigExt {bs : List Core.Binding} {m : Nat} {ρ ρ' : CEnv} (h : BoundOn bs ρ)
-    (he : SigExt m ρ ρ') : BoundOn bs ρ' := by
-  obtain ⟨ext, rfl, hx⟩ := he
-  clear hx
-  intro b hb
-  obtain ⟨V, hV⟩ := h b hb
-  induction ext with
-  | nil => exact ⟨V, hV⟩
-  | cons e r ih =>
-    obtain ⟨y, W⟩ := e
-    simp only [List.cons_append, lookup_cons]
-    split
-    · exact ⟨W, rfl⟩
-    · exact ih
 
 theorem BoundOn.cons {bs : List Core.Binding} {x : Core.Ident} {V : CVal} {ρ : CEnv}
     (h : BoundOn (bs.filter (·.var ≠ x)) ρ) : BoundOn bs ((x, V) :: ρ) := by
